@@ -176,7 +176,7 @@ def readParameters (rf : ReadFn) (T : Tabs) (d : T2Data) (ls : List Str) : Excep
   let (l4, r5) := readline r4
   let di ← readValues rf (← T.get "default_incons") l4
   let di := trimTrailingNones (d.defaultIncons ++ di)
-  let (more, nxt, r6) ← untilKeyword rf (← T.get "default_incons") allSections r5
+  let (more, nxt, r6) ← untilKeyword rf (← T.get "default_incons") (allSections ++ [k "ENDCY", k "ENDFI"]) r5
   pure ({ d with parameter := p, option, timestep, defaultIncons := di ++ more }, nxt, r6)
 
 def writeMoreOptions (T : Tabs) (d : T2Data) : Except Exc (List Str) := do
